@@ -4,6 +4,7 @@ import FemtoVerif.Driver.C02
 import FemtoVerif.Driver.C13
 import FemtoVerif.Driver.C08
 import FemtoVerif.Driver.C15
+import FemtoVerif.Driver.C14
 open Lean
 
 namespace Femto.Driver
@@ -24,6 +25,7 @@ def dispatch (op : String) (j : Json) : Except String Json :=
   | "c08.writer" => C08.writer j
   | "c08.adj" => C08.adj j
   | "c15.raster" => C15.raster j
+  | "c14.figure" => C14.figure j
   | _ => .error s!"unknown op {op}"
 
 def handleLine (line : String) : String :=
